@@ -858,10 +858,13 @@ def scale_cases(tier, rng):
         add(_chain(deep, kind), None, 'thread', {'task_dep': 2, 'setup': 3, 'calc_dep': 8, 'file': 4}[kind], 'chain:%s' % kind)
     add(_chain(60 if quick else 200, 'task_dep'), None, 'process', 2, 'chain:task_dep')
     # every node also names the root of the chain: _gen_node walks `ancestors` for an existing node at every depth
-    ts = _chain(deep, 'task_dep')
-    for i in range(2, deep):
+    # (deeper than the interpreter's recursion limit in every tier)
+    vdeep = 1500 if quick else 3000
+    ts = _chain(vdeep, 'task_dep')
+    for i in range(2, vdeep):
         ts[i]['task_dep'].append('t0')
-    add(ts, ['t%d' % (deep - 1)], 'serial', 0, 'chain+shared-root')
+    add(ts, ['t%d' % (vdeep - 1)], 'serial', 0, 'chain+shared-root')
+    add(_chain(vdeep, 'setup'), ['t%d' % (vdeep - 1)], 'thread', 2, 'chain:setup')
     wide = 300 if quick else 1500
     for runner, k in (('serial', 0), ('thread', 2), ('thread', 8), ('process', 4)):
         w = wide if runner != 'process' else 40
@@ -1288,6 +1291,14 @@ def judge(case, obs, a_run, a_c09, st, shrink_left):
         else:
             w = witness_of(case, obs, [], py, None, detail)
             st.divergence(w, 'scale tier (outcome oracle instead of the Lean acceptor): %s' % bad)
+        return used
+    if a_run is not None and 'error' in a_run and any(e[0] in ('runtime_error', 'cleanup_error') for e in obs['trace']):
+        # the reporter was told of a runtime error (an InvalidTask raised while the run was under way): the model has no
+        # such transition for the inputs generated here, and the acceptor cannot even read the event
+        st.count('model:rejected')
+        st.divergence(witness_of(case, obs, [], py, lean, detail),
+                      'correspondence M1: the run was cut short by a runtime error (reporter.runtime_error; exit=%s, stderr %r): '
+                      'the model has no such step' % (obs['exit'], (obs.get('stderr') or '')[-160:]))
         return used
     if a_run is None or 'error' in a_run:
         st.count('driver_unavailable(run)')
